@@ -11,6 +11,7 @@ import (
 	"sort"
 	"strings"
 	"sync"
+	"time"
 
 	"github.com/oneconcern/datamon/pkg/core"
 	"github.com/oneconcern/datamon/pkg/model"
@@ -27,6 +28,8 @@ type c15Op struct {
 	Kind  string       `json:"kind"` // upload | download | label | diamond
 	Files []world.File `json:"files,omitempty"`
 	Which int          `json:"which,omitempty"` // download / label: which initial bundle
+	Slow  int          `json:"slow,omitempty"`  // the first n blob writes of the operation are slow
+	Wait  int          `json:"wait,omitempty"`  // milliseconds the operation waits before it starts
 	// observed
 	Done  bool                 `json:"done"`
 	Err   string               `json:"err,omitempty"`
@@ -42,6 +45,7 @@ type c15Case struct {
 	Trace   []memstore.PutRecord `json:"trace"`
 	Before  [][2]string          `json:"before"` // blob store before: key, digest
 	Races   int                  `json:"races"`
+	Hung    bool                 `json:"hung,omitempty"`
 }
 
 var c15Raw = true // results are kept readable in the case; digests go to Coq
@@ -74,11 +78,25 @@ func c15FilesDigest(fs []world.File) string {
 }
 
 // one operation on a world seen through recording stores; returns the digest of its result
-func c15Do(w *world.World, log *memstore.PutLog, id int, o *c15Op, ids []string, r *gen.Rand, seq int64) (string, error) {
+// c15Shared puts recording stores in front of the stores of a world. All operations of a run go through the
+// same store objects, as operations of one process do (caches keyed by store would otherwise be out of reach).
+func c15Shared(w *world.World, log *memstore.PutLog, slow int32) *world.World {
 	wa := *w
-	wa.WrapMeta = func(s storage.Store) storage.Store { return &memstore.Recorder{Store: s, Log: log, Op: id, Name: "meta"} }
-	wa.WrapVMeta = func(s storage.Store) storage.Store { return &memstore.Recorder{Store: s, Log: log, Op: id, Name: "vmeta"} }
-	wa.WrapBlob = func(s storage.Store) storage.Store { return &memstore.Recorder{Store: s, Log: log, Op: id, Name: "blob"} }
+	var delay *int32
+	if slow > 0 {
+		delay = &slow // the first blob writes of the run travel over a slow link
+	}
+	meta := &memstore.Recorder{Store: w.Meta, Log: log, Name: "meta"}
+	vmeta := &memstore.Recorder{Store: w.VMeta, Log: log, Name: "vmeta"}
+	blob := &memstore.Recorder{Store: w.Blob, Log: log, Name: "blob", Delay: delay}
+	wa.WrapMeta = func(storage.Store) storage.Store { return meta }
+	wa.WrapVMeta = func(storage.Store) storage.Store { return vmeta }
+	wa.WrapBlob = func(storage.Store) storage.Store { return blob }
+	return &wa
+}
+
+// one operation; returns the digest of its result
+func c15Do(wa *world.World, id int, o *c15Op, ids []string, r *gen.Rand, seq int64) (string, error) {
 	ctx := context.Background()
 	switch o.Kind {
 	case "upload":
@@ -190,7 +208,7 @@ func c15Run(cs *c15Case, r *gen.Rand) {
 	for i := range cs.Ops {
 		o := &cs.Ops[i]
 		log := &memstore.PutLog{}
-		res, err := c15Do(w.Clone(), log, i+1, o, ids, r, int64(i))
+		res, err := c15Do(c15Shared(w.Clone(), log, 0), i+1, o, ids, r, int64(i))
 		if err != nil {
 			panic(fmt.Sprint("solo run failed: ", err))
 		}
@@ -206,6 +224,11 @@ func c15Run(cs *c15Case, r *gen.Rand) {
 	defer runtime.GOMAXPROCS(prev)
 	racesBefore := c15RaceCount()
 	log := &memstore.PutLog{}
+	slow := 0
+	for _, o := range cs.Ops {
+		slow += o.Slow
+	}
+	shared := c15Shared(w, log, int32(slow))
 	var wg sync.WaitGroup
 	start := make(chan struct{})
 	for i := range cs.Ops {
@@ -220,7 +243,8 @@ func c15Run(cs *c15Case, r *gen.Rand) {
 				}
 			}()
 			<-start
-			res, err := c15Do(w, log, i+1, o, ids, r, int64(i))
+			time.Sleep(time.Duration(o.Wait) * time.Millisecond)
+			res, err := c15Do(shared, i+1, o, ids, r, int64(i))
 			if err != nil {
 				o.Err = err.Error()
 				return
@@ -232,8 +256,14 @@ func c15Run(cs *c15Case, r *gen.Rand) {
 		cs.Ops[i].Done, cs.Ops[i].Err, cs.Ops[i].Conc = false, "", ""
 	}
 	close(start)
-	wg.Wait()
-	cs.Trace = log.Puts
+	finished := make(chan struct{})
+	go func() { wg.Wait(); close(finished) }()
+	select {
+	case <-finished:
+	case <-time.After(40 * time.Second):
+		cs.Hung = true // some operations never returned: they are reported as not completed
+	}
+	cs.Trace = log.Snapshot()
 	cs.Races = c15RaceCount() - racesBefore
 }
 
@@ -280,7 +310,7 @@ func init() {
 		c.CaseTy = "ccase"
 		c.Report = "report"
 		c.PerFile = 4
-		c.Rule = "a repository with two bundles, then 2..16 goroutines started together: uploads, diamond commits (create, split upload, commit), downloads of the initial bundles and label assignments, with file contents drawn from eight values (heavy overlap: the same blobs are written by several operations at once, some spanning several 64-byte leaves); GOMAXPROCS 1, 2, 4 or 16; the binary is built with the Go race detector; every operation is first run alone on a copy of the initial stores; non-trivial = run in which two operations wrote a common blob key, distinct by operations"
+		c.Rule = "a repository with two bundles, then 2..16 goroutines started together: uploads, diamond commits (create, split upload, commit), downloads of the initial bundles and label assignments, some starting 1..150 ms late, some uploads writing their first blobs over a slow link (1.2 s for the first write), with file contents drawn from eight values (heavy overlap: the same blobs are written by several operations at once, some spanning several 64-byte leaves); GOMAXPROCS 1, 2, 4 or 16; the binary is built with the Go race detector; every operation is first run alone on a copy of the initial stores; non-trivial = run in which two operations wrote a common blob key, distinct by operations"
 		emit := func(cs *c15Case) {
 			key := ""
 			writers := 0
@@ -322,6 +352,9 @@ func init() {
 				switch r.Intn(7) {
 				case 0, 1, 2:
 					o.Kind, o.Files = "upload", c15Tree(r)
+					if r.Chance(1, 3) {
+						o.Slow = 1
+					}
 				case 3:
 					o.Kind, o.Files = "diamond", c15Tree(r)
 				case 4, 5:
@@ -329,10 +362,16 @@ func init() {
 				default:
 					o.Kind = "label"
 				}
+				if r.Bool() {
+					o.Wait = []int{1, 5, 20, 60, 150}[r.Intn(5)]
+				}
 				cs.Ops = append(cs.Ops, o)
 			}
 			c15Run(cs, r)
 			emit(cs)
+			if cs.Hung {
+				break // the stuck operations hold whatever they hold: nothing more can be run in this process
+			}
 		}
 	}
 }
